@@ -1,6 +1,9 @@
 from __future__ import annotations  # Python 3.7+: for using own class name inside body of class
 import typing
+import contextlib
 from .n0struct_utils_find import split_name_index
+from .n0struct_utils_find import notemptyitems
+from .n0struct_utils_compare import get__flag_compare_check_different_types
 from .n0struct_findall import findall as n0struct_findall__findall
 from .n0struct_findall import findfirst as n0struct_findall__findfirst
 from .n0struct_utils import n0eval
